@@ -34,7 +34,18 @@ func optionValue(p *pwPath, v ssa.Value, opts ssa.Value, name string) bool {
 		return false
 	}
 	lk, ok := p.resolve(ta.X).(*ssa.Lookup)
-	if !ok || p.resolve(lk.X) != opts {
+	if !ok {
+		return false
+	}
+	m := p.resolve(lk.X)
+	for i := 0; i < 3; i++ {
+		if ct, isCT := m.(*ssa.ChangeType); isCT {
+			m = p.resolve(ct.X) // the same map under another (named) map type
+			continue
+		}
+		break
+	}
+	if m != opts {
 		return false
 	}
 	c, ok := p.constOf(lk.Index)
